@@ -3,6 +3,7 @@
 package checks
 
 import (
+	"strings"
 	"bytes"
 	"fmt"
 	"net"
@@ -74,6 +75,25 @@ func directValues() []directValue {
 		d.Options = append(d.Options, protocol.DHCPNewOption(protocol.DHCP_OPT_CLASS_ID, bytes.Repeat([]byte{7}, 253)))
 		return d
 	}).recv = func() any { return new(protocol.DHCP) }
+	// an explicit end option that is not the last element of the list (the BOOTP habit of filling up
+	// with pad options behind it; options appended to a message that already had its end)
+	for _, lay := range []string{"end,pad,pad", "opt,end,pad", "opt,end,opt", "end,opt", "pad,end,end", "end"} {
+		lay := lay
+		add("NewDHCP with the options "+lay, "dhcp", func() any {
+			d := mustDHCP(protocol.NewDHCP(7, protocol.DHCP_MSG_ACK, protocol.DHCP_HW_ETHERNET))
+			for i, k := range strings.Split(lay, ",") {
+				switch k {
+				case "end":
+					d.Options = append(d.Options, protocol.DHCPNewOption(protocol.DHCP_OPT_END, nil))
+				case "pad":
+					d.Options = append(d.Options, protocol.DHCPNewOption(protocol.DHCP_OPT_PAD, nil))
+				default:
+					d.Options = append(d.Options, protocol.DHCPNewOption(protocol.DHCP_OPT_CLIENT_ID, []byte{1, 2, 3, byte(i)}))
+				}
+			}
+			return d
+		})
+	}
 	// options longer than the one-byte option length can say: the encoder has to refuse the message, or
 	// else produce every byte it counted
 	for _, ol := range []int{254, 255, 256, 300, 600} {
